@@ -46,6 +46,8 @@ def shards(tier, seed):
             out.append({"id": "cold-%d" % i, "kind": "cold", "pairs": cold[i::3], "points": 14})
         out.append({"id": "cold-xcopy5", "kind": "cold", "pairs": [("ExtendedCopy5", "ExtendedCopy5")], "points": 48})
         out.append({"id": "cold-xcopy4", "kind": "cold", "pairs": [("ExtendedCopy4", "ExtendedCopy4")], "points": 48})
+        out.append({"id": "cold-data", "kind": "cold", "pairs": [("data:reportluns:300", "data:reportluns:300"), ("data:inquiry.vpd83:40", "data:reportluns:300"),
+                                                              ("data:getlbastatus:300", "data:getlbastatus:300")], "points": 40})
         out.append({"id": "sched-rand", "kind": "schedrand", "n": 300})
     else:
         for i in range(0, 42, 3):
@@ -77,6 +79,12 @@ def shards(tier, seed):
         same = [(n, n) for n in names]
         for i in range(14):
             out.append({"id": "cold-%d" % i, "kind": "cold", "pairs": same[i::14] + [allpairs[(i * 131 + 7) % len(allpairs)]], "points": 60})
+        from vmon.spec import datain as D2
+
+        lists = ["reportluns", "getlbastatus", "inquiry.vpd83", "reporttargetportgroups", "readelementstatus", "prin.readkeys", "prin.readfullstatus", "reportpriority"]
+        dp = [("data:%s:300" % a, "data:%s:300" % b) for a in lists for b in lists if a <= b and a in D2.FORMATS and b in D2.FORMATS]
+        for i in range(6):
+            out.append({"id": "cold-data-%d" % i, "kind": "cold", "pairs": dp[i::6], "points": 120})
     return out
 
 
@@ -403,6 +411,7 @@ def alias_checks(ctx, S):
                 if bytes(c2.dataout) != before:
                     ctx.fail("C09:reuse.buffers_aliased", "%s: writing to one command's dataout changed another's" % name, {"cmd": name})
     retyped_segments(ctx, S, rng)
+    retargeted_opcode_objects(ctx, S, rng)
     # facade defaults (mutable default arguments)
     dev = harness.Recorder(E.spc)
     s = harness.make_facade(dev)
@@ -469,6 +478,37 @@ def alias_checks(ctx, S):
 
 
 STRUCTURAL = ("type", "code", "length", "format", "association", "protocol", "naa", "piv", "spf", "page", "lu_id", "nul", "pad", "cat")
+
+
+def retargeted_opcode_objects(ctx, S, rng):
+    """one OpCode object carries a command, is given another value through its public property (an opcode scanner, a vendor
+    quirk patched into a table entry) and carries a command of another CDB size: that second command is the one a fresh OpCode
+    object gives"""
+    from pyscsi.pyscsi.scsi_opcode import OpCode
+
+    from vmon import harness
+
+    plain = [c for c in S.COMMANDS.values() if not c.sa and not c.custom and c.xfer in ("none", "read", "alloc")]
+    for c1 in plain:
+        for c2 in plain:
+            if c1 is c2:
+                continue
+            a1, a2 = fixed_args(c1), fixed_args(c2)
+            ctx.case(("opcode-retargeted", c1.name, c2.name), c1.length != c2.length)
+            try:
+                want = c2.load()(OpCode(c2.name, c2.op, {}), **harness.call_kwargs(c2, a2))
+                oc = OpCode(c1.name, c1.op, {})
+                c1.load()(oc, **harness.call_kwargs(c1, a1))
+                oc.value = c2.op
+                got = c2.load()(oc, **harness.call_kwargs(c2, a2))
+            except Exception as e:  # noqa: BLE001
+                ctx.fail("C09:opcode_object_reused.raises.%s" % type(e).__name__, "%s built with an OpCode object that carried %s before raised %s: %s" % (c2.name, c1.name, type(e).__name__, e),
+                         {"first": c1.name, "second": c2.name}, exc=e)
+                continue
+            ctx.count("retargeted_opcode_objects")
+            if bytes(got.cdb) != bytes(want.cdb) or len(got.datain) != len(want.datain):
+                ctx.fail("C09:opcode_object_reused.second_command_differs", "%s built with an OpCode object that carried %s before has CDB %s, with a fresh object %s"
+                         % (c2.name, c1.name, bytes(got.cdb).hex(), bytes(want.cdb).hex()), {"first": c1.name, "second": c2.name})
 
 
 def retyped_segments(ctx, S, rng):
